@@ -318,8 +318,14 @@ impl DependencyProvider for SimProvider {
         if self.core.yields(Kind::Sort) {
             req.await;
         }
+        // Like a real provider, the ranking policy is looked up once per call, for the package of the slice it is given
+        // (the trait hands over the candidates of one package): solvables of another package are not ranked by it.
         let w = &self.core.world;
-        solvables.sort_by_key(|s| w.rank_pos(s.0));
+        if let Some(first) = solvables.first().copied() {
+            let name = w.solvable_name(first.0);
+            let rank = &w.packages[&name].rank;
+            solvables.sort_by_key(|s| rank.iter().position(|x| *x == s.0).unwrap_or(usize::MAX));
+        }
         guard.deliver();
     }
 
